@@ -257,6 +257,66 @@ def _normalise_call(body, bi, closures):
     return True
 
 
+TRAVERSALS = {"std::iter::Iterator::try_for_each": "try", "std::iter::Iterator::for_each": "plain"}
+
+
+def _normalise_traversal(body, bi, closures):
+    """`iter.try_for_each(|x| f(x))` is, by definition, `for x in iter { f(x)? } Ok(())`, and `iter.for_each(|x| f(x))` is
+    `for x in iter { f(x); }`: the call is replaced by that loop (next() on the iterator, the case analysis on its answer, the
+    closure body spliced in with the item as its argument, for try_for_each the case analysis on the closure's result with
+    the failure passed on).  A per-item closure and a hand-written loop body then reach the rules in the same shape."""
+    t = body["blocks"][bi]["term"]
+    kind = TRAVERSALS[t["callee"]]
+    args = t["args"]
+    if len(args) != 2 or t.get("t") is None:
+        return False
+    it = args[0]
+    if it.get("k") not in ("copy", "move") or it.get("p"):
+        return False
+    cd = _closure_def_of(body, args[1])
+    if cd is None or cd[0] not in closures or closures[cd[0]]["arg_count"] != 2:
+        return False
+    dest = t["dest"]
+    if kind == "try" and not (dest.get("ty") or "").startswith(RESULT):
+        return False
+    span = t.get("span", {"s": "", "x": False})
+    bld = _Builder(body, span)
+    cont = t["t"]
+    ref = bld.local("")
+    opt = bld.local(OPTION + "<>")
+    d = bld.local("isize")
+    item = bld.local("")
+    res = bld.local((dest.get("ty") or "") if kind == "try" else "()")
+    # blocks are created back to front so that targets exist
+    if kind == "try":
+        done = bld.block([bld.assign(copy.deepcopy(dest), bld.agg(RESULT, "Ok", 0, [{"k": "const", "ty": "()", "val": "()"}]))], bld.goto(cont))
+        fail = bld.block([bld.assign(copy.deepcopy(dest), {"k": "through", "adt": RESULT, "variant": "Err", "op": {"l": res, "p": [], "ty": "", "k": "move"}})], bld.goto(cont))
+    else:
+        done = bld.block([bld.assign(copy.deepcopy(dest), {"k": "use", "op": {"k": "const", "ty": "()", "val": "()"}})], bld.goto(cont))
+    head = bld.block([], {"k": "unreachable", "span": span})      # terminator filled in below
+    if kind == "try":
+        d2 = bld.local("isize")
+        after = bld.block([bld.assign(bld.plain(d2, "isize"), {"k": "discr", "place": {"l": res, "p": [], "ty": ""}, "adt": RESULT, "variants": VARIANTS[RESULT]})],
+                          {"k": "switch", "discr": {"l": d2, "p": [], "ty": "isize", "k": "move"}, "targets": [[0, head], [1, fail]], "otherwise": fail,
+                           "span": span, "combinator": t["callee"]})
+    else:
+        after = bld.block([], bld.goto(head))
+    call_pre = _apply_fn(bld, body, closures, args[1], [{"l": item, "p": [], "ty": "", "k": "move"}], bld.plain(res), after)
+    if call_pre is None:
+        return False
+    some = bld.block([bld.assign(bld.plain(item), {"k": "use", "op": bld.payload(opt, "Some", 1)})], bld.goto(call_pre))
+    sw = bld.block([bld.assign(bld.plain(d, "isize"), {"k": "discr", "place": {"l": opt, "p": [], "ty": ""}, "adt": OPTION, "variants": VARIANTS[OPTION]})],
+                   {"k": "switch", "discr": {"l": d, "p": [], "ty": "isize", "k": "move"}, "targets": [[0, done], [1, some]], "otherwise": done,
+                    "span": span, "combinator": t["callee"]})
+    body["blocks"][head]["stmts"] = [bld.assign(bld.plain(ref), {"k": "ref", "mut": True, "place": {"l": it["l"], "p": [], "ty": ""}})]
+    body["blocks"][head]["term"] = {"k": "call", "callee": "std::iter::Iterator::next", "callee_args": [], "callee_local": None, "resolved": None,
+                                    "obligations": [], "args": [{"l": ref, "p": [], "ty": "", "k": "move"}], "dest": bld.plain(opt, OPTION + "<>"),
+                                    "t": sw, "unwind": None, "span": span, "fn_span": span, "synthetic_call": True}
+    body["blocks"][bi]["term"] = {"k": "goto", "t": head, "span": span, "normalised_traversal": t["callee"]}
+    body.setdefault("normalised_combinators", []).append(t["callee"])
+    return True
+
+
 def _known_variants_at_end(stmts, known):
     """Forward simulation of plain statements over {local: (adt, variant)} facts."""
     known = dict(known)
@@ -567,6 +627,11 @@ def normalise_combinators(bodies, adts=None, cli=False):
                 t = b["blocks"][bi]["term"]
                 if t["k"] == "call" and t["callee"] in _ACTIVE and not b["blocks"][bi].get("cleanup"):
                     if _normalise_call(b, bi, closures):
+                        n += 1
+                        changed = True
+                        break
+                if t["k"] == "call" and t["callee"] in TRAVERSALS and not b["blocks"][bi].get("cleanup"):
+                    if _normalise_traversal(b, bi, closures):
                         n += 1
                         changed = True
                         break
